@@ -40,15 +40,15 @@ type Sched struct {
 }
 
 var (
-	regMu    sync.Mutex
-	registry = map[moss.Collection]*Sched{}
-	storeReg = map[*moss.Store]*Sched{}
-	pending  *Sched // collection being opened (hooks may fire before we know its pointer)
+	regMu         sync.Mutex
+	registry      = map[moss.Collection]*Sched{}
+	storeReg      = map[*moss.Store]*Sched{}
+	pending       *Sched // collection being opened (hooks may fire before we know its pointer)
 	retired       = map[moss.Collection]bool{}
 	retiredStores = map[*moss.Store]bool{}
-	installed bool
-	globalSeq uint64
-	globalMu  sync.Mutex
+	installed     bool
+	globalSeq     uint64
+	globalMu      sync.Mutex
 )
 
 // Install sets the global hook variables (once per process).
